@@ -85,6 +85,13 @@ def _prep(case):
     return case
 
 
+def _under_cap(case):
+    if case["flags"] & 0x80 and len(gt.ref_body(case)) > 0x2F00:
+        # a zero-coded body beyond the decoder's 0x3000 cap is refused by design (C03); such a datagram is sent unencoded
+        case = dict(case, flags=case["flags"] & ~0x80)
+    return case
+
+
 def classify(case, text):
     cls = []
     if "=|" in text:
@@ -99,6 +106,7 @@ def classify(case, text):
 def roundtrip_laws(ctx, case, beautify, repl_name, overrides=None):
     """overrides: {(block, index, var): raw value} applied to the decoded message before printing"""
     out = []
+    case = _under_cap(case)
     dg = ref_datagram(case)
     try:
         m = DESER.deserialize(dg)
